@@ -14,7 +14,7 @@ RULE = ('30-minute grid over 3 days (144 instants; thorough adds a 1-minute grid
         'and saved at instants chosen to hit day boundaries (00:00, 00:30, 12:00, 23:30 of each day) in two categories, by ONE writer '
         'cassette that stays open across the midnights, with recording ids whose key order is not chronological; ALL windows (start <= '
         'end) of the grid, start > end, end defaulting to now (bucket restricted to recordings <= now), with and without metadata filter '
-        'and limit. Non-trivial = window whose reference answer is a proper non-empty subset.')
+        'and limit; long windows: all pairs of 32 instants from Oct 2019 to Jan 2021 (month ends, year ends, leap day), one recording per marked day. Non-trivial = window whose reference answer is a proper non-empty subset.')
 ASSUMPTIONS = ['process clock in UTC (as the property states); harness clock replaces datetime in s3_tape_cassette and stamps last_modified in the fake bucket',
                'recordings are created and saved at the same instant']
 D0 = datetime.datetime(2020, 3, 1)
@@ -48,6 +48,56 @@ def gen_cases(tier, seed):
     # one long-lived cassette: the same open-ended lookup repeated while the clock moves on and recordings keep arriving
     for s0 in (0, 12 * 60, 23 * 60 + 30, 24 * 60):
         yield {'k': 'repeat', 'start': s0, 'tier': tier}
+    # long windows: weeks to months, across month ends, a year end and a leap day
+    for i in range(len(long_instants())):
+        yield {'k': 'long', 'start': i, 'tier': tier}
+
+
+LONG_DAYS = [(2019, 10, 31), (2019, 11, 1), (2019, 11, 15), (2019, 11, 30), (2019, 12, 1), (2019, 12, 15), (2019, 12, 31), (2020, 1, 1), (2020, 1, 15),
+             (2020, 1, 31), (2020, 2, 1), (2020, 2, 28), (2020, 2, 29), (2020, 3, 1), (2020, 12, 31), (2021, 1, 1)]
+
+
+def long_instants():
+    out = []
+    for d in LONG_DAYS:
+        out += [datetime.datetime(*d), datetime.datetime(*d) + datetime.timedelta(hours=18)]
+    return out
+
+
+def _long(case, viols):
+    from playback.tape_cassettes.s3.s3_tape_cassette import S3TapeCassette
+    fakes3.new_store(lambda: pytz.utc.localize(_clock[0]))
+    w = S3TapeCassette('bucket', key_prefix='p', read_only=False)
+    recs = []
+    for d in LONG_DAYS:
+        t = datetime.datetime(*d) + datetime.timedelta(hours=12)
+        _clock[0] = t
+        r = w.create_new_recording('Op')
+        r.set_data('k', 1)
+        w.save_recording(r)
+        recs.append((r.id, t))
+    _clock[0] = datetime.datetime(2021, 2, 1)
+    reader = S3TapeCassette('bucket', key_prefix='p', read_only=True)
+    inst = long_instants()
+    sd = inst[case['start']]
+    n = nt = 0
+    for ed in inst[case['start']:]:
+        n += 1
+        ref = sorted(t.isoformat() for rid, t in recs if sd <= t <= ed)
+        times = {rid: t for rid, t in recs}
+        try:
+            ids = list(reader.iter_recording_ids('Op', start_date=sd, end_date=ed))
+            got = sorted(times[x].isoformat() if x in times else 'unknown:' + x for x in ids)
+        except Exception as ex:
+            viols.append(viol('long:raised:%s' % type(ex).__name__, 'window [%s, %s] raised' % (sd, ed), ref, repr(ex)))
+            continue
+        if got != ref:
+            span = 'one-month' if (sd.year, sd.month) == (ed.year, ed.month) else 'adjacent-months' if (ed.year * 12 + ed.month) - (sd.year * 12 + sd.month) == 1 else 'several-months'
+            kind = 'duplicates' if len(set(got)) != len(got) else 'outside-window' if set(got) - set(ref) else 'missed'
+            viols.append(viol('long:%s:%s%s' % (kind, span, ':across-new-year' if sd.year != ed.year else ''), 'long window [%s, %s]' % (sd, ed), ref, got))
+        elif 0 < len(ref) < len(recs):
+            nt += 1
+    return n, nt
 
 
 _clock = [D0]
@@ -135,6 +185,8 @@ def run_case(case):
                                           sorted(_fmt(times[r]) for r in ref_a), sorted(_fmt(times.get(r, -1)) for r in got_a)))
                     elif 0 < len(ref_a) < 13:
                         nontrivial += 1
+    elif case['k'] == 'long':
+        n, nontrivial = _long(case, viols)
     elif case['k'] == 'repeat':
         from playback.tape_cassettes.s3.s3_tape_cassette import S3TapeCassette as S3C
         import pytz
